@@ -133,6 +133,13 @@ def main():
     messages = []
     broken = []          # broken obligations / correspondence streams (names)
 
+    # The whole Lean phase (regenerate Generated/*, build, audit) runs under one lock on the Lean project: checks
+    # started at the same time - possibly against different copies of the repository - take turns, so none builds or audits
+    # against files another one has just regenerated. (Released before the correspondence phase; on an early return the
+    # process ends and the lock with it.)
+    lean_phase = core.build_lock()
+    lean_phase.__enter__()
+
     # 0. property-specific preparation that regenerates model parts from the source (C18)
     if hasattr(mod, "prepare"):
         mod.prepare()
@@ -264,6 +271,7 @@ def main():
             broken.append(f"theorem {t}: {info.get('error') or 'depends on axioms ' + str(info.get('axioms'))}")
     for h in hits:
         broken.append("forbidden construct in Lean sources: " + h)
+    lean_phase.__exit__(None, None, None)
     lc = None
     if a.tier == "thorough" and not build_failed and has_props:
         lc = core.leanchecker([props_mod] + extra_mods + [tm for tm in table_mods if not any(table_module(t) == tm for t in table_broken)])
